@@ -132,6 +132,8 @@ def canon(line):
     out = []
     for seg in line.split(" | "):
         seg = _ROWS.sub(srt, seg)
+        if seg.startswith("size:"):
+            seg = "ok"                 # file size is not part of the reference; oracles read it from the raw line
         if seg.startswith("err:") and seg != "err:panic":
             seg = "err"
         out.append(seg)
